@@ -1,10 +1,15 @@
 package props
 
 import (
+	"context"
 	"fmt"
 	"hash/fnv"
 	"runtime/debug"
 	"testing"
+
+	"chgosim/refproto"
+	"chgosim/simnet"
+	"github.com/ClickHouse/ch-go"
 
 	"github.com/ClickHouse/ch-go/compress"
 	"github.com/ClickHouse/ch-go/proto"
@@ -34,7 +39,73 @@ func safeDecode(d c07Decoder, src *simio.FaultyReader) (err error, panicked stri
 	return d(src), ""
 }
 
+// runC07Client is the engine-A part: the server's response stream to a real
+// client ends (FIN or RST) after byte k; the query must fail and the callbacks
+// that ran must be a prefix of what the complete stream delivers, i.e. no
+// partially decoded block or packet is ever handed to the caller.
+func runC07Client(t *testing.T, c *choice.Stream, r *Result, opt RunOpt) {
+	Bubble(t, c, r, opt, func(e *Env) func() {
+		cf := DrawConf(c)
+		rs := drawResponse(c, cf, 6)
+		var stream []byte
+		var bounds []int
+		for _, p := range rs.packets {
+			stream = append(stream, p.Encode(cf)...)
+			bounds = append(bounds, len(stream))
+		}
+		k := c.Draw("cut.k", len(stream))
+		rst := c.Bool("cut.rst", 1, 2)
+		nop := func(*refproto.ClientPacket) []byte { return nil }
+		script := cf.HandshakeSteps()
+		script = append(script, simnet.Step{Label: "query", OnPacket: nop}, simnet.Step{Label: "ext-end", OnPacket: nop},
+			simnet.Step{Label: "response-prefix", Send: stream[:k], Fin: !rst, Rst: rst})
+		e.Sim.DrawStrategy()
+		e.Sim.StallProb = 0
+		e.Sim.MaxSteps = 400000
+		e.W.DeliverMode = c.Weighted("deliver", 3, 1, 3)
+		srv := simnet.NewServer(cf.ServerRev, script)
+		conn := e.W.NewConn(srv)
+		want, _, _ := rs.expected()
+		// events that complete packets before the cut would deliver
+		whole := 0
+		for whole < len(bounds) && bounds[whole] <= k {
+			whole++
+		}
+		r.Cell = "client-cut"
+		r.NonTriv = true
+		r.Fire(map[bool]string{true: "cut_rst", false: "cut_fin"}[rst])
+		r.Sample = map[string]any{"kind": "client-cut", "stream_bytes": len(stream), "cut_at": k, "whole_packets_before_cut": whole, "packets": len(rs.packets), "compression": cf.Comp.String(), "rst": rst}
+		return func() {
+			cl, err := ch.Connect(context.Background(), conn, cf.Options())
+			if err != nil {
+				r.Harness("fault-free handshake failed: %v", err)
+				return
+			}
+			derr := cl.Do(context.Background(), rs.query)
+			if derr == nil {
+				r.Violate("truncation-accepted", "accepted:client", "the response was cut after %d of %d bytes (%d whole packets of %d) and Do returned nil", k, len(stream), whole, len(rs.packets))
+				return
+			}
+			got := rs.rec.Events
+			if len(got) > len(want) {
+				r.Violate("partial-data-delivered", "extra-events:client", "the cut response produced %d callback events, the complete one only %d", len(got), len(want))
+				return
+			}
+			for i := range got {
+				if got[i] != want[i] {
+					r.Violate("partial-data-delivered", "partial-event:client", "response cut after %d of %d bytes: callback event %d differs from what the complete stream delivers\n got: %.500s\nwant: %.500s", k, len(stream), i, got[i], want[i])
+					return
+				}
+			}
+		}
+	})
+}
+
 func runC07(t *testing.T, c *choice.Stream, r *Result, opt RunOpt) {
+	if c.Bool("family.client", 1, 6) {
+		runC07Client(t, c, r, opt)
+		return
+	}
 	rev := revMenu()[c.Draw("rev", len(revMenu()))]
 	if c.Bool("rev.latest", 1, 2) {
 		rev = proto.Version
